@@ -7,6 +7,17 @@ from common import Case
 from props.C15 import call, on, nl, onat, bl
 
 
+#: pairs of DISTINCT objects that compare equal (==) and hash equal, of five sorts
+EQ_UNIV = ["e:1", "e:1", "t:1,2", "t:1,2", "i:4", "i:4", "d:3", "d:3", "s:q", "s:q"]
+
+
+def deep_chain(n):
+    nodes = []
+    for i in reversed(range(n)):
+        nodes = [[i % len(EQ_UNIV), None, f"k{i}", nodes]]
+    return nodes
+
+
 def num(x):
     if isinstance(x, tuple) and x and x[0] == "ERR":
         return -1
@@ -25,24 +36,35 @@ class Prop:
     case_module = "CaseNav"
     case_vo = "theories/Cases/CaseNav.vo"
     run_fn = "run10"
-    shard = 100
+    shard = 40
     rule = ("plain trees: every ordered forest with <= N nodes (N=5 quick, 6 thorough) with three labelings each (distinct strings; "
             "equal-comparing objects under distinct explicit data_ids; mixed with clones in different parents) plus seeded random trees "
-            "up to 25 nodes; every query of node.py:373-540 on every node, every ordered pair for the ancestor/descendant/common-ancestor "
-            "tests, up(k) for k=0..depth+1, Tree.calc_height.  A case is one tree; distinct = distinct (shape, labeling); non-trivial = >= 3 nodes")
+            "up to 25 nodes; TYPED trees (every forest <= 4 nodes with alternating kinds + random ones; the plain queries are observed "
+            "through the ANY_KIND / any_kind=True variants TypedNode offers); DEEP random trees (depth >= 8, up to 30 nodes); WIDE forests "
+            "whose many siblings (and top-level nodes) hold equal-comparing data of several sorts (value-equal objects, equal tuples, "
+            "equal ints, equal frozen dataclasses, equal strings) under distinct data_ids; every query of node.py:373-540 on every node, "
+            "every ordered pair for the ancestor/descendant/common-ancestor tests, up(k) for k=0..depth+1, Tree.calc_height.  "
+            "A case is one tree; distinct = distinct (typed, shape, labeling); non-trivial = >= 3 nodes")
     exhaustive_note = "all shapes <= N nodes (N=5 quick) x 3 labelings"
     assumptions = ["identity of nodes is the allocation index recorded by a harness-side wrapper of Node.__init__"]
     manifest = dict(
         text=("Machine-checked theorems (Coq 8.16, no axioms) about an executable model of the relationship queries: the context a node "
-              "identity resolves to is the structural one (a real parent-child path to a top-level node, the parent's child list), and "
-              "parent/children/siblings/first/last/prev/next/index/depth/ancestor list/top/up/descendant counts/height/is-*/ancestor-"
-              "descendant tests/nearest common ancestor are the functions of that context the property describes, by identity (never by "
-              "data equality); tied to /repo on every run by a correspondence check over all forests <=5 nodes x 3 labelings + random "
-              "trees (every node, every ordered pair) and an independent pointer-walking Python oracle."),
-        note=("Trusted: Coq kernel + vm_compute; hand-written model theories/Forest/Nav.v (tied by the correspondence only); harness. "
-              "Partial in one respect: the converse of C10_descendant_sound (a node inside a's branch has a among its ancestors) and the "
-              "'common ancestor of other as well' half are stated on node identities of the located contexts, not re-derived from "
-              "pre-order membership; the correspondence/oracle cover them. Print Assumptions: closed under the global context."),
+              "identity resolves to is the structural one and is unique; its ancestor chain is exactly the list of nodes whose branch "
+              "contains the node, in pre-order; parent/children/siblings/first/last/prev/next/index/depth/ancestor list/top/up/descendant "
+              "counts/height/is-*/ancestor-descendant tests/nearest common ancestor are the functions of that context the property "
+              "describes, by identity (never by data equality), and satisfy the mutual-consistency laws (children/parent inverse, "
+              "depth of a child = S depth of its parent, height = depth of the deepest descendant, Tree.calc_height = largest depth, "
+              "counts = |pre-order of the branch| - 1 = sum over children, path = joined names top first, up(j+k) = up(j) of up(k), "
+              "get_top = the unique top-level node containing the node, is_descendant_of <-> membership in the branch (both directions), "
+              "irreflexive/asymmetric/transitive, is_ancestor_of its converse, common ancestor = the deepest node containing both, "
+              "symmetric, None exactly across top-level branches, next/prev sibling inverse); lexical facts of node.py (identity search, "
+              "subscripts, counters) are lifted by gen_facts and proved to be what the model computes; tied to /repo on every run by a "
+              "correspondence check over all forests <=5 nodes x 3 labelings + typed, deep, wide-equal and random trees (every node, "
+              "every ordered pair) and an independent pointer-walking Python oracle."),
+        note=("Trusted: Coq kernel + vm_compute; hand-written model theories/Forest/Nav.v (tied by the correspondence and, for the "
+              "lexical facts of section NAV of Generated.v, by proof obligations); harness. All statements are derived from pre-order "
+              "membership for every forest with unique node identities and every node / ordered pair (NavLaws.v). "
+              "Print Assumptions: closed under the global context."),
         technique="Coq proof about an executable Gallina model + differential correspondence check (vm_compute) + Python oracle",
         design_ref="DESIGN.md section 6 (C10)",
     )
@@ -67,6 +89,36 @@ class Prop:
             shape = H.random_shape(rng, n, deep=rng.choice([0.2, 0.5, 0.85]))
             univ = ["e:1"] * n
             yield dict(univ=univ, nodes=B.shape_to_nodes(shape, lambda i, d, s: (i, None, f"k{i}")))
+        # (d) typed trees: the plain queries through the ANY_KIND / any_kind=True variants
+        for n in range(1, (4 if tier == "quick" else 5) + 1):
+            for shape in H.forests(n):
+                yield dict(typed=True, univ=["e:1"] * n,
+                           nodes=B.shape_to_nodes(shape, lambda i, d, s: (i, "ab"[(i + d) % 2], f"k{i}")))
+        for _ in range(25 if tier == "quick" else 200):
+            n = rng.randint(6, 20)
+            shape = H.random_shape(rng, n, deep=rng.choice([0.2, 0.5, 0.85]))
+            ks = [rng.choice("abc") for _ in range(n)]
+            yield dict(typed=True, univ=["e:1"] * n, nodes=B.shape_to_nodes(shape, lambda i, d, s, ks=ks: (i, ks[i], f"k{i}")))
+        # (e) deep trees: depth >= 8
+        for _ in range(20 if tier == "quick" else 150):
+            for _try in range(50):
+                n = rng.randint(12, 30)
+                shape = H.random_shape(rng, n, deep=rng.choice([0.8, 0.9, 0.97]))
+                nodes = B.shape_to_nodes(shape, lambda i, d, s: (i % len(EQ_UNIV), None, f"k{i}"))
+                if B.nodes_depth(nodes) >= 8:
+                    break
+            else:
+                nodes = deep_chain(n)
+            yield dict(univ=EQ_UNIV, nodes=nodes)
+        # (f) wide forests: many siblings / top-level nodes with equal-comparing data of several sorts
+        for _ in range(20 if tier == "quick" else 150):
+            n = rng.randint(8, 24)
+            shape = H.random_shape(rng, n, deep=rng.choice([0.0, 0.05, 0.15]))
+            lab = [rng.randrange(len(EQ_UNIV)) for _ in range(n)]
+            yield dict(univ=EQ_UNIV, nodes=B.shape_to_nodes(shape, lambda i, d, s, lab=lab: (lab[i], None, f"k{i}")))
+            # one sort only: every sibling compares equal to every other
+            one = rng.choice([0, 2, 4, 6, 8])
+            yield dict(univ=EQ_UNIV, nodes=B.shape_to_nodes(shape, lambda i, d, s, one=one: (one + (i % 2), None, f"k{i}")))
 
     def shrink_candidates(self, desc):
         for nodes in B.drop_one_node(desc["nodes"]):
@@ -91,6 +143,11 @@ class Prop:
             desc = d2
             tree, U = B.build(desc)
         nodes = B.all_nodes(tree._root)
+        typed = bool(desc.get("typed"))
+        # TypedNode overrides the child / sibling accessors with a mandatory kind / an any_kind flag (default False);
+        # the plain relationship queries of a typed tree are their ANY_KIND / any_kind=True forms
+        KA = (H.ANY_KIND,) if typed else ()
+        KW = dict(any_kind=True) if typed else {}
 
         def obs_node(n):
             depth = call(lambda: n.depth())
@@ -101,14 +158,14 @@ class Prop:
                 ups.append(-1 if isinstance(r, tuple) else H.nid(r))
             top = call(lambda: n.get_top())
             return [
-                on(call(lambda: n.parent)), nl(call(lambda: n.children)), on(call(lambda: n.first_child())), on(call(lambda: n.last_child())),
-                nl(call(lambda: n.get_siblings(add_self=False))), nl(call(lambda: n.get_siblings(add_self=True))),
-                on(call(lambda: n.first_sibling())), on(call(lambda: n.last_sibling())),
-                on(call(lambda: n.prev_sibling())), on(call(lambda: n.next_sibling())),
-                onat(call(lambda: n.get_index())), num(depth), num(call(lambda: n.calc_height())),
+                on(call(lambda: n.parent)), nl(call(lambda: n.children)), on(call(lambda: n.first_child(*KA))), on(call(lambda: n.last_child(*KA))),
+                nl(call(lambda: n.get_siblings(add_self=False, **KW))), nl(call(lambda: n.get_siblings(add_self=True, **KW))),
+                on(call(lambda: n.first_sibling(**KW))), on(call(lambda: n.last_sibling(**KW))),
+                on(call(lambda: n.prev_sibling(**KW))), on(call(lambda: n.next_sibling(**KW))),
+                onat(call(lambda: n.get_index(**KW))), num(depth), num(call(lambda: n.calc_height())),
                 -1 if isinstance(top, tuple) else H.nid(top),
-                bl(call(lambda: n.is_top())), bl(call(lambda: n.is_leaf())), bl(call(lambda: n.is_first_sibling())),
-                bl(call(lambda: n.is_last_sibling())), bl(call(lambda: n.has_children())),
+                bl(call(lambda: n.is_top())), bl(call(lambda: n.is_leaf())), bl(call(lambda: n.is_first_sibling(**KW))),
+                bl(call(lambda: n.is_last_sibling(**KW))), bl(call(lambda: n.has_children(*KA))),
                 nl(call(lambda: n.get_parent_list(add_self=False, bottom_up=False))),
                 nl(call(lambda: n.get_parent_list(add_self=True, bottom_up=False))),
                 nl(call(lambda: n.get_parent_list(add_self=False, bottom_up=True))),
@@ -124,8 +181,9 @@ class Prop:
         obs = [per_node, pairs, num(call(lambda: tree.calc_height()))]
         fail = self.oracle(tree, nodes, obs)
         return Case(desc=desc, coq_input=H.coq_forest(tree._root, U), impl_obs=obs, oracle_fail=fail,
-                    nontrivial=len(nodes) >= 3, key=H.digest([desc["univ"], desc["nodes"]]),
-                    stats=dict(nodes=len(nodes), depth=B.nodes_depth(desc["nodes"])))
+                    nontrivial=len(nodes) >= 3, key=H.digest([bool(desc.get("typed")), desc["univ"], desc["nodes"]]),
+                    stats=dict(nodes=len(nodes), depth=B.nodes_depth(desc["nodes"]), typed=int(typed),
+                               max_sibs=max((len(p._children or []) for p in [tree._root] + nodes), default=0)))
 
     def oracle(self, tree, nodes, obs):
         per_node, pairs, th = obs
